@@ -896,8 +896,14 @@ class Interp:
         it = self.eval(g.iter, fr)
         vals = self.iter_values(it, e)
         if vals is None:
-            if isinstance(it, VSeq) and not g.ifs:
-                return self.models.seq_map(self, it, e, g, fr)
+            if not g.ifs and (isinstance(it, VSeq) or (isinstance(it, IterView) and it.kind == "range")):
+                try:
+                    n, _ = self.sym_iter(it, e)
+                    decided = isinstance(n, int)
+                except Unsupported:
+                    decided = False
+                if not decided and self.ctx.solver.enum_values(zi(n), 1) is None:
+                    return self.models.seq_map(self, it, e, g, fr)
             vals = list(self.iter_symbolic_unroll(it, e))
         out = []
         sub = Frame(dict(fr.locals), fr.globals, fr.fname)
@@ -1070,8 +1076,8 @@ class Interp:
     def seq_index(self, s, k):
         from . import specs
         if z3.is_app(s.z) and s.z.decl().name() in specs._MAPS:
-            elt_at, _ = specs._MAPS[s.z.decl().name()]
-            z = elt_at(self, s.z.arg(0), zi(k))
+            elt_at = specs._MAPS[s.z.decl().name()][0]
+            z = elt_at(self, s.z.children(), zi(k))
             if s.elem == "int":
                 return mk_int(z)
             return specs.vbytes_from_term(z3.simplify(z)) if s.elen is None else VBytes([Chunk(z3.simplify(z), s.elen)])
